@@ -219,7 +219,7 @@ PROPS['C02'] = {
 _C03_SCEN = [  # (scenario, threads, quick cases, thorough cases)
     ('future_mt', 5, 12000, 600000), ('future_async_mt', 5, 12000, 600000), ('mutex_mt', 4, 10000, 500000), ('mutex_pool_handoff', 1, 20000, 400000),
     ('queue_mt', 5, 8000, 400000), ('lqueue_mt', 5, 8000, 400000), ('shared_future_mt', 4, 10000, 500000),
-    ('scheduler_threads', 1, 6000, 200000), ('scheduler_stop_race', 1, 6000, 200000), ('pool_mt', 4, 12000, 400000), ('publisher_mt', 4, 8000, 400000), ('signal_mt', 4, 8000, 400000), ('generator_programs', 2, 6000, 300000), ('aggregator_programs', 2, 4000, 200000), ('adapter_matrix', 2, 9000, 400000), ('storage_mt', 2, 12000, 500000),
+    ('scheduler_threads', 1, 6000, 200000), ('scheduler_stop_race', 1, 6000, 200000), ('pool_mt', 4, 12000, 400000), ('publisher_mt', 4, 8000, 400000), ('signal_mt', 4, 8000, 400000), ('generator_programs', 2, 6000, 300000), ('aggregator_programs', 2, 4000, 200000), ('adapter_matrix', 2, 9000, 400000), ('storage_mt', 2, 12000, 500000), ('async_start_race', 2, 10000, 400000), ('queue_unblock_contended', 4, 6000, 300000),
 ]
 PROPS['C03'] = {
     'technique': 'ThreadSanitizer (happens-before race detection) over the shared multi-threaded scenario library; guarded fence annotation',
@@ -295,10 +295,13 @@ PROPS['C04'] = {
     'rule': ('case = one program; every program is non-trivial (it creates at least one coroutine); distinct = distinct (T, start mode, completion, depth, '
              'throwing level, finishing thread).'),
     'min_nontrivial': [150, 1000],
+    'require_classes': ['async_start_race:coroutine_won_the_promise', 'async_start_race:competing_call_won_the_promise'],
     'single_thread_scenarios': ('async_programs',),
     'jobs': [
         J('prog_asan', 'c04.cpp', 'asan', [40000, 2000000], scenario='async_programs', threads=1),
         J('prog_rel', 'c04.cpp', 'rel', [40000, 3000000], scenario='async_programs', threads=1),
+        J('race_asan', 'c04.cpp', 'asan', [40000, 2000000], scenario='async_start_race', threads=2),
+        J('race_rel', 'c04.cpp', 'rel', [300000, 15000000], scenario='async_start_race', threads=2),
         J('prog_casan', 'c04.cpp', 'casan', [0, 1000000], scenario='async_programs', threads=1, tiers=(T,)),
         J('prog_crel', 'c04.cpp', 'crel', [0, 2000000], scenario='async_programs', threads=1, tiers=(T,)),
     ],
